@@ -130,3 +130,251 @@ for S, T in [('u64', 'uint64_t'), ('u32', 'uint32_t'), ('iter', 'uint64_t')]:
   __CPROVER_assert(p.first <= q.first && p.second <= q.second, "pieces appear in order");
 ''' % D, backend='ib',
         says='pairwise disjoint and in order: consecutive pieces share their boundary'))
+
+# ---------------------------------------------------------------------------
+# Edge-balanced node division by prefix sum (GraphHelpers.h)
+#
+# The prefix sum is an abstract template parameter with operator[] in the
+# source; it is lowered to a lookup function (rule L-lookup) whose contract is
+# the ASSUMPTION on the input: with
+#     EB(k) = edgePrefixSum[k-1+nodeOffset] - edgeOffset   (edges before node k)
+#     W(k)  = EB(k) * edgeWeight + k * nodeWeight           (weight before node k)
+# W is non-decreasing in k.  Universally quantified facts are carried by ghost
+# probes (never read or written by the code, hence arbitrary):
+#   * a TARGET probe  g_T  with  g_L = LEAST(g_T) = least k in [0,N] such that
+#     k == N or W(k) >= g_T,  g_EL = EB(g_L),  g_ELM1 = EB(g_L - 1).
+#     PROBE_OK states exactly this (nonlinear, ghost side only).  The lookup
+#     contract gives the two linear monotonicity facts relative to it.
+#   * a NODE probe g_k with g_Ek = EB(g_k) (for the returned edge ranges).
+# Every contract below compares its targets with g_T in both directions, so
+# "result == LEAST(target)" holds for whatever target a caller is interested
+# in: a lemma instantiates g_T with that target (no uninterpreted functions:
+# the int-blasting back end is slow on them).
+PS = '''
+typedef struct PS PS;   /* any container with operator[] */
+uint64_t g_N;    /* number of nodes in the range being divided   */
+uint64_t g_E;    /* number of edges in that range                */
+uint64_t g_no;   /* nodeOffset: where the range starts in the prefix sum */
+uint64_t g_eo;   /* edgeOffset: edges before the range           */
+uint64_t g_nw, g_ew; /* node / edge weight                       */
+uint64_t g_T, g_L, g_EL, g_ELM1;   /* target probe */
+uint64_t g_k, g_Ek;                /* node probe   */
+#define CLAMP(x, lo, hi) ((x) < (lo) ? (lo) : ((x) > (hi) ? (hi) : (x)))
+/* sizes for which nothing wraps: nodes, edges <= 2^40, weights <= 2^20 */
+#define PS_BOUNDS (g_N <= ((uint64_t)1 << 40) && g_E <= ((uint64_t)1 << 40) && g_no <= ((uint64_t)1 << 40) && \\
+                   g_eo <= ((uint64_t)1 << 40) && g_nw <= (1u << 20) && g_ew <= (1u << 20) && (g_nw != 0 || g_ew != 0))
+#define PROBE_OK (g_L <= g_N && g_EL <= g_E && g_ELM1 <= g_E && g_ELM1 <= g_EL && \\
+                  (g_L < g_N ==> g_EL * g_ew + g_L * g_nw >= g_T) && \\
+                  (g_L > 0 ==> g_ELM1 * g_ew + (g_L - 1) * g_nw < g_T) && \\
+                  (g_L == 0 ==> g_EL == 0) && g_k <= g_N && g_Ek <= g_E && (g_k == 0 ==> g_Ek == 0))
+/* total weight as the code computes it; every W(k), k < N, is below it */
+#define TOTALW (g_N * g_nw + (g_E + 1) * g_ew)
+'''
+
+UNITS.append(Unit(
+    name='ps_at', kind='assumed', prelude=PS,
+    proto='uint64_t ps_at(const PS* ps, uint64_t i, uint64_t k)',
+    contract='''
+__CPROVER_requires(k <= g_N && i + 1 == k + g_no)
+__CPROVER_ensures(__CPROVER_return_value >= g_eo && __CPROVER_return_value - g_eo <= g_E)
+__CPROVER_ensures(k < g_L ==> __CPROVER_return_value - g_eo <= g_ELM1)
+__CPROVER_ensures(k >= g_L ==> __CPROVER_return_value - g_eo >= g_EL)
+__CPROVER_ensures(k == g_k ==> __CPROVER_return_value - g_eo == g_Ek)
+__CPROVER_ensures(k == g_N ==> __CPROVER_return_value - g_eo == g_E)
+__CPROVER_assigns()
+''',
+    says='ASSUMED lookup contract of the abstract prefix sum: edgePrefixSum[i] - edgeOffset = EB(k) for k = i+1-nodeOffset (ghost argument, checked at each call), EB non-decreasing (relative to the probes), EB(N) = E'))
+
+UNITS.append(Unit(
+    name='findIndexPrefixSum', src=GH_H,
+    anchor=r'size_t findIndexPrefixSum\(size_t nodeWeight, size_t edgeWeight,',
+    proto='size_t findIndexPrefixSum(size_t nodeWeight, size_t edgeWeight, size_t targetWeight, uint64_t lb, uint64_t ub, const PS* edgePrefixSum, uint64_t edgeOffset, uint64_t nodeOffset)',
+    contract='''
+__CPROVER_requires(PS_BOUNDS && PROBE_OK && nodeWeight == g_nw && edgeWeight == g_ew && edgeOffset == g_eo && nodeOffset == g_no)
+__CPROVER_requires(lb <= ub && ub <= g_N)
+__CPROVER_ensures(lb <= __CPROVER_return_value && __CPROVER_return_value <= ub)
+__CPROVER_ensures(targetWeight <= g_T ==> __CPROVER_return_value <= CLAMP(g_L, lb, ub))
+__CPROVER_ensures(targetWeight >= g_T ==> __CPROVER_return_value >= CLAMP(g_L, lb, ub))
+__CPROVER_ensures(targetWeight >= TOTALW ==> __CPROVER_return_value == ub)
+__CPROVER_assigns()
+''',
+    prelude=PS, uses=['ps_at'],
+    lower=[rx(r'edgePrefixSum\[(mid) - 1 \+ nodeOffset\]', r'ps_at(edgePrefixSum, \1 - 1 + nodeOffset, /*ghost k=*/ \1)')],
+    ghost_prefix='const uint64_t lb0 = lb, ub0 = ub;',
+    loops={1: '''
+__CPROVER_assigns(lb, ub)
+__CPROVER_loop_invariant(lb0 <= lb && lb <= ub && ub <= ub0)
+__CPROVER_loop_invariant(targetWeight <= g_T ==> (lb == lb0 || lb <= g_L))
+__CPROVER_loop_invariant(targetWeight >= g_T ==> (ub == ub0 || g_L <= ub))
+__CPROVER_loop_invariant(targetWeight >= TOTALW ==> ub == ub0)
+__CPROVER_decreases(ub - lb)
+'''},
+    backend='ib', witness='g_N == 4 && g_E == 6 && g_no == 0 && g_eo == 0 && g_nw == 0 && g_ew == 1 && g_T == 3 && g_L == 2 && g_EL == 3 && g_ELM1 == 2 && g_k == 0 && g_Ek == 0 && lb == 0 && ub == 4 && targetWeight == 3',
+    inst='PrefixSumType = any container whose operator[] satisfies the monotone lookup contract ps_at',
+    says='binary search returns the least node index whose prefix weight reaches the target, clamped to [lb, ub] (stated against an arbitrary probe target in both directions); a target above the total weight returns ub; terminates',
+    trusted=['abstract lookup contract ps_at (assumed): the prefix sum is monotone; sizes <= 2^40, weights <= 2^20'],
+))
+
+# ---------------------------------------------------------------------------
+# determine_block_division (GraphHelpers.cpp): in-place prefix sum of the
+# scale factors (or 1,2,..,n when none are given); returns the last entry.
+VEC = '#include "gv_vec.h"\nsize_t gp; /* ghost probe index into the vector */\nuint32_t g_oldp; /* entry value of element gp */\n'
+UNITS.append(Unit(
+    name='determine_block_division', src=GH_C,
+    anchor=r'uint32_t determine_block_division\(uint32_t numDivisions,',
+    proto='uint32_t determine_block_division(uint32_t numDivisions, struct gv_vec_u32* scaleFactor)',
+    contract='''
+__CPROVER_requires(GV_VEC_VALID(scaleFactor, 1u << 16))
+__CPROVER_requires(scaleFactor->size == 0 ? numDivisions <= scaleFactor->cap : (scaleFactor->size == numDivisions && numDivisions >= 1))
+__CPROVER_requires(gp < scaleFactor->size ==> g_oldp == scaleFactor->data[gp])
+__CPROVER_ensures(scaleFactor->size == numDivisions)
+__CPROVER_ensures(numDivisions >= 1 ==> __CPROVER_return_value == scaleFactor->data[numDivisions - 1])
+__CPROVER_ensures(numDivisions == 0 ==> __CPROVER_return_value == 0)
+__CPROVER_ensures((__CPROVER_old(scaleFactor->size) == 0 && gp < numDivisions) ==> scaleFactor->data[gp] == gp + 1)
+__CPROVER_ensures((__CPROVER_old(scaleFactor->size) != 0 && gp < numDivisions) ==> (uint32_t)(scaleFactor->data[gp] - (gp > 0 ? scaleFactor->data[gp - 1] : 0)) == g_oldp)
+__CPROVER_assigns(scaleFactor->size, __CPROVER_object_whole(scaleFactor->data))
+''',
+    prelude=VEC,
+    lower=[refs(['scaleFactor'], 5),
+           call(r'\(\*scaleFactor\)', 'empty', 'gv_vec_u32_empty'),
+           call(r'\(\*scaleFactor\)', 'push_back', 'gv_vec_u32_push_back'),
+           call(r'\(\*scaleFactor\)', 'size', 'gv_vec_u32_size'),
+           index(r'\(\*scaleFactor\)', 'GV_AT_U32', 2)],
+    loops={1: '''
+__CPROVER_assigns(i, scaleFactor->size, __CPROVER_object_whole(scaleFactor->data))
+__CPROVER_loop_invariant(i <= numDivisions && scaleFactor->size == i && numDivisions <= scaleFactor->cap)
+__CPROVER_loop_invariant(gp < i ==> scaleFactor->data[gp] == gp + 1)
+__CPROVER_loop_invariant(i > 0 ==> scaleFactor->data[i - 1] == i)
+__CPROVER_decreases(numDivisions - i)
+''', 2: '''
+__CPROVER_assigns(i, numBlocks, __CPROVER_object_whole(scaleFactor->data))
+__CPROVER_loop_invariant(i <= numDivisions && scaleFactor->size == numDivisions)
+__CPROVER_loop_invariant(numBlocks == (i == 0 ? 0 : scaleFactor->data[i - 1]))
+__CPROVER_loop_invariant(gp < i ==> (uint32_t)(scaleFactor->data[gp] - (gp > 0 ? scaleFactor->data[gp - 1] : 0)) == g_oldp)
+__CPROVER_loop_invariant((gp >= i && gp < numDivisions) ==> scaleFactor->data[gp] == g_oldp)
+__CPROVER_decreases(numDivisions - i)
+'''},
+    backend='sat',
+    inst='std::vector<unsigned> modelled by stubs/gv_vec.h (data pointer, size, capacity)',
+    says='scale factors become their prefix sum (difference form, modulo 2^32) or 1..n when empty; the return value is the last entry = number of blocks',
+    trusted=['stubs/gv_vec.h: std::vector element access/size/push_back semantics, no reallocation'],
+))
+
+# ---------------------------------------------------------------------------
+# divideNodesBinarySearch (GraphHelpers.h): piece `id` of `total`.
+#
+# Abstract view of the (by-value) scale-factor vector after
+# determine_block_division turned it into a prefix sum: ghost g_bl / g_bu are
+# the entries id-1 / id, g_nb the last entry (= number of blocks).  This view
+# is ASSUMED here and PROVED of the real array code in determine_block_division
+# (prefix sum in difference form, return value = last entry).
+#
+# Nonlinear arithmetic: cvc5's nonlinear engine proves each product/division
+# fact in isolation in well under a second but gets lost when the facts sit
+# inside the whole function.  The two nonlinear expressions of the body are
+# therefore OUTLINED (rule O-outline): `(weight + numBlocks - 1) / numBlocks`
+# becomes gv_ceil_div(weight, numBlocks) and `blockWeight * blockX` becomes
+# gv_mul_target(blockWeight, blockX).  Each outlined function has the
+# expression itself as its body, is proved to return exactly that expression,
+# and carries the monotonicity / ceil-div facts as further postconditions; the
+# enclosing function is then verified against those contracts.
+SF = '''
+typedef struct SF SF;
+uint64_t g_total, g_id;        /* number of divisions, the division asked for */
+uint32_t g_nb, g_bl, g_bu;     /* numBlocks, scaleFactor[id-1] (0 for id 0), scaleFactor[id] */
+uint32_t g_B;                  /* block probe: the target probe g_T is the weight of g_B blocks */
+uint64_t g_bw;                 /* weight of one block = ceil(TOTALW / numBlocks) */
+#define CEILDIV_FACTS ((gv_u128)g_bw * g_nb >= TOTALW && (gv_u128)g_bw * g_nb <= (gv_u128)TOTALW + g_nb - 1 && g_bw <= TOTALW)
+#define SF_OK (g_total >= 1 && g_id < g_total && g_nb >= 1 && g_bl <= g_bu && g_bu <= g_nb && \\
+               (g_id == 0 ==> g_bl == 0) && (g_id + 1 == g_total ==> g_bu == g_nb) && g_B <= g_nb && \\
+               g_bw == (TOTALW + g_nb - 1) / g_nb && g_T == g_bw * g_B && CEILDIV_FACTS)
+struct graph_range { struct pair_u64 first, second; };
+#define GV_ID(x) (x)
+/* ghost view of the scale-factor vector (ASSUMED; the real array code is
+   proved in determine_block_division).  Inline getters rather than contracts
+   so that the solver sees definitions, not assumed equalities. */
+static inline uint32_t dbd_abs(size_t total, SF* scaleFactor)
+{ __CPROVER_assert(total == g_total, "ghost view: number of divisions"); return g_nb; }
+static inline uint32_t sf_at(SF* scaleFactor, size_t i)
+{ __CPROVER_assert(i < g_total && (i == g_id || i + 1 == g_id), "ghost view: only entries id-1 and id are read");
+  return i == g_id ? g_bu : g_bl; }
+'''
+
+UNITS.append(Unit(
+    name='gv_ceil_div', kind='contract', prelude=[PS, SF],
+    proto='uint64_t gv_ceil_div(uint64_t weight, uint32_t numBlocks)',
+    body_override='return (weight + numBlocks - 1) / numBlocks;',
+    contract='''
+__CPROVER_requires(PS_BOUNDS && numBlocks >= 1 && weight == TOTALW && numBlocks == g_nb && g_bw == (TOTALW + g_nb - 1) / g_nb)
+__CPROVER_ensures(__CPROVER_return_value == (weight + numBlocks - 1) / numBlocks)
+__CPROVER_ensures(__CPROVER_return_value == g_bw)
+__CPROVER_assigns()
+''', backend='ib', witness='g_N == 4 && g_E == 6 && g_nw == 0 && g_ew == 1 && g_no == 0 && g_eo == 0 && g_nb == 2',
+    harness_pre='weight = TOTALW; g_nb = numBlocks;',
+    says='outlined expression (weight + numBlocks - 1) / numBlocks of divideNodesBinarySearch: returns exactly that'))
+
+UNITS.append(Unit(
+    name='lemma_ceil_div', kind='contract', prelude=[PS, SF],
+    proto='void lemma_ceil_div(void)', body_override='',
+    contract='''
+__CPROVER_requires(PS_BOUNDS && g_nb >= 1 && g_bw == (TOTALW + g_nb - 1) / g_nb)
+__CPROVER_ensures(CEILDIV_FACTS)
+__CPROVER_assigns()
+''', backend='ib', witness='g_N == 4 && g_E == 6 && g_nw == 0 && g_ew == 1 && g_no == 0 && g_eo == 0 && g_nb == 2',
+    says='lemma function: ceil(w/n)*n lies in [w, w+n-1] and ceil(w/n) <= w for the block weight (no wrap-around at sizes <= 2^40, weights <= 2^20)'))
+
+UNITS.append(Unit(
+    name='gv_mul_target', kind='contract', prelude=[PS, SF],
+    proto='uint64_t gv_mul_target(uint64_t blockWeight, uint32_t block)',
+    body_override='return blockWeight * block;',
+    contract='''
+__CPROVER_requires(PS_BOUNDS && g_nb >= 1 && blockWeight == g_bw && block <= g_nb && g_B <= g_nb && g_T == g_bw * g_B && CEILDIV_FACTS)
+__CPROVER_ensures(__CPROVER_return_value == blockWeight * block)
+__CPROVER_ensures((gv_u128)__CPROVER_return_value == (gv_u128)blockWeight * (gv_u128)block)
+__CPROVER_ensures(block <= g_B ==> __CPROVER_return_value <= g_T)
+__CPROVER_ensures(block >= g_B ==> __CPROVER_return_value >= g_T)
+__CPROVER_ensures(block == g_nb ==> __CPROVER_return_value >= TOTALW)
+__CPROVER_assigns()
+''', backend='ib', witness='g_N == 4 && g_E == 6 && g_nw == 0 && g_ew == 1 && g_no == 0 && g_eo == 0 && g_nb == 2 && g_B == 1 && block == 1',
+    says='outlined expression blockWeight * block of divideNodesBinarySearch: returns exactly that, without wrap-around, monotone in the block count (relative to the block probe), and all blocks together weigh at least the total'))
+
+DNBS_CONTRACT = '''
+__CPROVER_requires(PS_BOUNDS && PROBE_OK && SF_OK)
+__CPROVER_requires(numNodes == g_N && numEdges == g_E && nodeWeight == g_nw && edgeWeight == g_ew && edgeOffset == g_eo && nodeOffset == g_no && id == g_id && total == g_total)
+__CPROVER_ensures(__CPROVER_return_value.first.first <= __CPROVER_return_value.first.second && __CPROVER_return_value.first.second <= g_N)
+__CPROVER_ensures((g_N > 0 && g_bl == 0) ==> __CPROVER_return_value.first.first == 0)
+__CPROVER_ensures((g_N > 0 && g_bl > 0 && g_bl <= g_B) ==> __CPROVER_return_value.first.first <= g_L)
+__CPROVER_ensures((g_N > 0 && g_bl > 0 && g_bl >= g_B) ==> __CPROVER_return_value.first.first >= g_L)
+__CPROVER_ensures((g_N > 0 && g_bu <= g_B) ==> __CPROVER_return_value.first.second <= CLAMP(g_L, __CPROVER_return_value.first.first, g_N))
+__CPROVER_ensures((g_N > 0 && g_bu >= g_B) ==> __CPROVER_return_value.first.second >= CLAMP(g_L, __CPROVER_return_value.first.first, g_N))
+__CPROVER_ensures((g_N > 0 && g_bu == g_nb) ==> __CPROVER_return_value.first.second == g_N)
+__CPROVER_ensures(g_N == 0 ==> (__CPROVER_return_value.first.first == 0 && __CPROVER_return_value.first.second == 0 && __CPROVER_return_value.second.first == 0 && __CPROVER_return_value.second.second == 0))
+__CPROVER_ensures((g_N > 0 && __CPROVER_return_value.first.first == __CPROVER_return_value.first.second) ==> (__CPROVER_return_value.second.first == g_E && __CPROVER_return_value.second.second == g_E))
+__CPROVER_ensures((g_N > 0 && __CPROVER_return_value.first.first != __CPROVER_return_value.first.second && __CPROVER_return_value.first.first == g_k) ==> __CPROVER_return_value.second.first == g_Ek)
+__CPROVER_ensures((g_N > 0 && __CPROVER_return_value.first.first != __CPROVER_return_value.first.second && __CPROVER_return_value.first.second == g_k) ==> __CPROVER_return_value.second.second == g_Ek)
+__CPROVER_assigns()
+'''
+for NT, S in [('uint64_t', 'u64'), ('uint32_t', 'u32')]:
+    UNITS.append(Unit(
+        name='divideNodesBinarySearch_' + S, src=GH_H, anchor=r'auto divideNodesBinarySearch\(',
+        proto='struct graph_range divideNodesBinarySearch_%s(%s numNodes, uint64_t numEdges, size_t nodeWeight, size_t edgeWeight, size_t id, size_t total, const PS* edgePrefixSum, SF* scaleFactor, uint64_t edgeOffset, uint64_t nodeOffset)' % (S, NT),
+        contract=DNBS_CONTRACT, prelude=[PS, SF],
+        uses=['findIndexPrefixSum', 'ps_at', 'gv_ceil_div', 'gv_mul_target'],
+        trusted=['ghost view of the scale-factor vector (dbd_abs/sf_at inline getters in the prelude): entries id-1, id and the last entry of the prefix-summed vector'],
+        lower=[rx(r'typedef [^;]*;', '', 5),
+               bind('NodeType', NT, 0),
+               rx(r'\b(?:edge_)?iterator\(', 'GV_ID(', 8),
+               mkpair('NodeRange', 'struct pair_u64', 2), mkpair('EdgeRange', 'struct pair_u64', 2),
+               mkpair('GraphRange', 'struct graph_range', 2),
+               ren('internal::determine_block_division', 'dbd_abs'),
+               ren('internal::findIndexPrefixSum', 'findIndexPrefixSum', 2),
+               index('scaleFactor', 'sf_at', 2),
+               rx(r'\(weight \+ numBlocks - 1\) / numBlocks', 'gv_ceil_div(weight, numBlocks)', 1, 1),
+               rx(r'blockWeight \* (blockLower|blockUpper)', r'gv_mul_target(blockWeight, \1)', 2, 2),
+               rx(r'edgePrefixSum\[(nodesLower|nodesUpper) - 1 \+ nodeOffset\]', r'ps_at(edgePrefixSum, \1 - 1 + nodeOffset, /*ghost k=*/ \1)', 2)],
+        harness_pre='g_N = numNodes; g_E = numEdges; g_nw = nodeWeight; g_ew = edgeWeight; g_eo = edgeOffset; g_no = nodeOffset; g_id = id; g_total = total;',
+        backend='ib', timeout=400,
+        witness='g_N == 4 && g_E == 6 && g_no == 0 && g_eo == 0 && g_nw == 0 && g_ew == 1 && g_T == 4 && g_L == 2 && g_EL == 4 && g_ELM1 == 2 && g_k == 2 && g_Ek == 4 && g_total == 2 && g_id == 0 && g_nb == 2 && g_bl == 0 && g_bu == 1 && g_B == 1 && g_bw == 4',
+        inst='NodeType=%s, PrefixSumType = any container satisfying ps_at; scale-factor vector through its ghost view' % NT,
+        says='piece id is [LEAST(blockWeight*scale[id-1]), LEAST(blockWeight*scale[id])) (stated against an arbitrary probe in both directions), inside [0,numNodes); first piece starts at 0, last piece ends at numNodes; edge range = prefix-sum values at the node bounds',
+    ))
